@@ -464,6 +464,29 @@ func (ex *Exec) applyCall(st *State, fr *Frame, c *ssa.CallCommon, fc *FuncContr
 		}
 		env.vars[fmt.Sprintf("arg%d", i)] = CV{T: a}
 	}
+	// explicit, listed assumptions of the caller at this call site (`at <callee> assumes ...`)
+	if extra := ex.fc.CallAsserts[fc.Name]; len(extra) > 0 && len(st.frames) == 1 {
+		cenv := env.child()
+		for k, v := range ex.params {
+			if _, shadow := cenv.vars[k]; !shadow {
+				cenv.vars[k] = v
+			}
+			cenv.vars["caller_"+k] = v
+		}
+		cenv.old = ex.entry
+		for _, r := range extra {
+			if r.Kind != "assumes" {
+				continue
+			}
+			cv, err := cenv.Eval(r.Expr)
+			if err != nil {
+				ex.aborted = fmt.Sprintf("%s:%d: at %s assumes: %v", r.File, r.Line, fc.Name, err)
+				return freshResults()
+			}
+			ex.w.Note(fmt.Sprintf("ASSUMED at call of %s in %s: %s", fc.Name, ex.fn.Name(), r.Src))
+			st.assume(cv.T)
+		}
+	}
 	for i, r := range fc.Requires {
 		cv, err := env.Eval(r.Expr)
 		if err != nil {
@@ -485,9 +508,13 @@ func (ex *Exec) applyCall(st *State, fr *Frame, c *ssa.CallCommon, fc *FuncContr
 			if _, shadow := cenv.vars[k]; !shadow {
 				cenv.vars[k] = v
 			}
+			cenv.vars["caller_"+k] = v
 		}
 		cenv.old = ex.entry
 		for i, r := range extra {
+			if r.Kind != "requires" {
+				continue
+			}
 			cv, err := cenv.Eval(r.Expr)
 			if err != nil {
 				ex.aborted = fmt.Sprintf("%s:%d: at %s requires: %v", r.File, r.Line, fc.Name, err)
